@@ -5,6 +5,7 @@ from gen import *
 from oracle_util import *
 import ops
 import numpy as np
+import json
 
 ID = 'C06'
 STRICT_ERR = False
@@ -130,6 +131,27 @@ def oracle(case, res):
             oc = cells(o)
             for c in ac:
                 if c not in oc: return 'array %d lost its value at %r' % (i, c)
+    # Datasets among the inputs: the first array inside a Dataset, after a variable that lacks every aligned dimension,
+    # must come out of align() exactly like the array itself
+    D = da()
+    try:
+        arrs = [mk_array(j) for j in ins]
+        with warnings.catch_warnings():
+            warnings.simplefilter('ignore')
+            with np.errstate(all='ignore'):
+                ds = D.Dataset(); ds['t0'] = D.DimArray([1.0, 2.0], axes=[[7, 8]], dims=['only_here']); ds['v'] = arrs[0]; ds['v2'] = arrs[0] * 2
+                rr = D.align([ds] + arrs[1:], join=join, axis=axis, sort=sort)
+                got = arr_json(rr[0]['v']); got2 = arr_json(rr[0]['v2']); t0 = arr_json(rr[0]['t0'])
+    except Exception as e:
+        return 'align() with the first array inside a Dataset raised %s' % type(e).__name__
+    want0 = outs[0]
+    def same(x, y): return json.dumps([x['axes'], x['flat'], x['shape']], sort_keys=True, default=str) == json.dumps([y['axes'], y['flat'], y['shape']], sort_keys=True, default=str)
+    if not same(got, want0): return 'inside a Dataset the first input aligns to %s, alone to %s' % (json.dumps(got, default=str)[:200], json.dumps(want0, default=str)[:200])
+    if got2['axes'] != want0['axes']: return 'a second variable of the Dataset does not receive the common axes'
+    for x, y in zip(got2['flat'], want0['flat']):
+        if isinstance(x, dict) != isinstance(y, dict) or (not isinstance(x, dict) and not isinstance(y, (str, bool)) and float(x) != 2 * float(y)):
+            return 'a later variable of the Dataset is not filled like the first: %r vs 2 * %r' % (x, y)
+    if t0['flat'] != [1.0, 2.0]: return 'a variable lacking the aligned dimensions was changed'
     return None
 
 def nontrivial(case, res):
